@@ -76,20 +76,23 @@ def parse_etag(chk, nbytes):
     for st in res:
         if st.status != 'done':
             continue
-        L = st.extra.get('etag_len')
         rl, rb = bstr_of(ex, st, st.result)
-        weak = z3.And(L >= 4, bs[0] == ord('W'), bs[1] == ord('/'), bs[2] == ord('"'), bs[L - 1] == ord('"')) if L >= 4 else z3.BoolVal(False)
-        quoted = z3.And(L >= 2, bs[0] == ord('"'), bs[L - 1] == ord('"')) if L >= 2 else z3.BoolVal(False)
-        def same(off, n):
-            return z3.And(rl == n, *[rb[i] == bs[off + i] for i in range(max(n, 0))]) if n >= 0 else z3.BoolVal(False)
-        spec = z3.If(weak, same(3, L - 4), z3.If(quoted, same(1, L - 2), same(0, L)))
-        D.require(st, spec, 'parse_etag(len %d) == spec' % L)
+        # the rule, stated for every length (however the code looked at the string on this path)
+        cases = []
+        for L in range(nbytes + 1):
+            weak = z3.And(bs[0] == ord('W'), bs[1] == ord('/'), bs[2] == ord('"'), bs[L - 1] == ord('"')) if L >= 4 else z3.BoolVal(False)
+            quoted = z3.And(bs[0] == ord('"'), bs[L - 1] == ord('"')) if L >= 2 else z3.BoolVal(False)
+
+            def same(off, n):
+                return z3.And(rl == n, *[rb[i] == bs[off + i] for i in range(max(n, 0))]) if n >= 0 else z3.BoolVal(False)
+            cases.append(z3.Implies(ln == L, z3.If(weak, same(3, L - 4), z3.If(quoted, same(1, L - 2), same(0, L)))))
+        D.require(st, z3.And(*cases), 'parse_etag == stripping rule')
     f = D.done()
     if f and f[0] == 'violated':
         o.key = o.name
         if f[2] is not None:
-            L = f[3].extra.get('etag_len')
-            o.cex = {'bytes': [mval(f[2], bs[i]) for i in range(L)]}
+            L = mval(f[2], ln)
+            o.cex = {'bytes': [mval(f[2], bs[i]) for i in range(min(L, nbytes))]}
     chk.absorb(ex)
 
 
@@ -456,6 +459,8 @@ def run(chk):
     verify_structure(chk)
     with_signature(chk)
     key_map(chk)
+    import c03
+    c03.nonce_obligations(chk, which=('nonce-display',))     # the "<key id>:<nonce hex>" part of the signed digest
     chk.bounds.update({'etag bytes (parse_etag)': nbytes})
     chk.assumptions += [
         'SHA-256, hex decoding, DER parsing and ECDSA verification (sha2, hex, ecdsa/p256 crates) are abstract events: the check decides which values flow into which primitive and how each outcome maps to accept / error class, not the primitives themselves; injectivity of the hash is not assumed',
@@ -469,8 +474,11 @@ if __name__ == '__main__':
     chk = Check('C01')
     try:
         run(chk)
-    except Inconclusive as e:
+    except Exception as e:          # nothing the engine cannot digest may look like a verdict: exit 2
+        import traceback
         o = chk.ob('engine', 'executor could not interpret the code')
         o.status = 'inconclusive'
-        o.detail = str(e)
+        o.detail = ('%s: %s' % (type(e).__name__, e)) if not isinstance(e, Inconclusive) else str(e)
+        if not isinstance(e, Inconclusive):
+            o.detail += ' | ' + ' <- '.join(l.strip() for l in traceback.format_exc().strip().split('\n')[-7:-1:2])
     sys.exit(chk.finish())
